@@ -262,3 +262,5 @@ def store_clone_rule(ck, facts):
                                 elif fsrc is not None:
                                     ck.ok("R10.4", "%s::clone field #%d <- %s" % (i["self_ty"], idx, fsrc))
     ck.floor("R10.4", "Clone impls in sophia_inmem", n, 5)
+    import witness
+    witness.apply(ck, "C10")
